@@ -6,7 +6,7 @@ from .common import gen_faults
 
 PROP = "C05"
 JUDGE = ("C05.",)
-PROGRAMS = ["calltree", "genctx"]
+PROGRAMS = ["calltree", "genctx", "forms"]
 RUNS = {"quick": 3000, "thorough": 150000}
 
 
@@ -69,9 +69,28 @@ def gen_generator_history(rng, tier):
     return {"prog": "genctx", "ops": ops, "relax_inflight": True}
 
 
+def gen_twin_closures(rng):
+    """Two function objects made by one factory (they share a code object), probed with the same
+    captures at overlapping times: each probe hears of its own function only, exactly once."""
+    from .common import gen_tape
+
+    one = lambda fn, v: {"levels": [{"fn": fn, "caps": [], "sibs": []}], "focus": {"var": v, "as": v}}
+    v = rng.choice(["x", "p", "x"])
+    ops = [{"op": "mk", "id": "pa", "sels": [one("clo", v)], "inv": "C05.exactly_once", "kind": "probe"},
+           {"op": "mk", "id": "pb", "sels": [one("clo2", v)], "inv": "C05.exactly_once", "kind": "probe"}]
+    call = lambda: {"op": "call", "fn": rng.choice(["clo", "clo2"]), "nargs": 1, "tape": gen_tape(rng, 2), "faults": {}}
+    first, second = rng.sample(["pa", "pb"], 2)
+    ops += [{"op": "enter", "id": first}, call(), call(), {"op": "enter", "id": second}, call(), call(), call()]
+    out1, out2 = rng.sample([first, second], 2)
+    ops += [{"op": "exit", "id": out1}, call(), call(), {"op": "exit", "id": out2}, call(), call()]
+    return {"prog": "forms", "ops": ops}
+
+
 def gen(rng, tier, quarantine=()):
     if "no-generators" not in quarantine and rng.random() < 0.12:
         return gen_generator_history(rng, tier)
+    if "no-twin-closures" not in quarantine and rng.random() < 0.05:
+        return gen_twin_closures(rng)
     fns = rng.sample(FNS, rng.choice([1, 2, 2, 3]))
     nprobes = rng.randint(2, 4)
     kinds = {}
